@@ -142,6 +142,17 @@ def explain(corr):
             "(the model, not the property, is out of date)" % k)
 
 
+def harmless(case, impl, model):
+    """an `snf` case whose diagonal form, rank and factors equal the model's (the diagonal is unique: C09_unique) and
+    which only differs in the transformation matrices: the clauses about P, Pinv, Q, Qinv are decided on the
+    implementation's own output by the `chk` case of the same matrix (a false clause there is reported as a failing
+    input), so this difference alone is not a failing input"""
+    if not case.startswith("snf ") or impl in BAD or impl == "P" or model == "P":
+        return False
+    a, b = impl.split(" | "), model.split(" | ")
+    return len(a) == 7 and len(b) == 7 and a[0] == b[0] and a[5:] == b[5:]
+
+
 def run(ctx):
     ctx.equal = equal
     obl = C.coq_obligations(ctx.pid, ["Extract/ExtractC09.vo"], more_props=["C09Unique", "C09UniqueMinors"])
@@ -153,7 +164,7 @@ def run(ctx):
     extra["c09_stats"] = stats
     prioritise(corr)
     return C.finish(ctx, "proof", obl, corr, RULE, extra_cov=extra, assumptions=ASSUME, extra_violations=viol,
-                    explain=explain(corr))
+                    explain=explain(corr), harmless=harmless)
 
 
 def replay(ctx, payload):
